@@ -1,7 +1,7 @@
 (* Real-number lemmas for M_box.v (C17). *)
 From Coq Require Import ZArith Reals Lra Psatz List Bool Lia.
 From PW Require Import Num NumR Vec NpList Result.
-From PW.model Require Import M_plane M_box.
+From PW.model Require Import M_plane M_box M_box_spec.
 From PW.proofs Require Import P_vec P_nplist P_plane.
 Import ListNotations.
 Local Open Scope R_scope.
@@ -13,8 +13,6 @@ Ltac bunf :=
 
 (* componentwise order *)
 Definition cle (a b : vec3 R) : Prop := vx a <= vx b /\ vy a <= vy b /\ vz a <= vz b.
-Definition nonneg_size (b : box R) : Prop := 0 <= vx (bsize b) /\ 0 <= vy (bsize b) /\ 0 <= vz (bsize b).
-Definition box_max (b : box R) : vec3 R := vadd ROps (borigin b) (bsize b).
 
 (* ---- constructor ------------------------------------------------------------------------------------ *)
 Lemma box_ctor_ok o s : 0 <= vx s -> 0 <= vy s -> 0 <= vz s -> box_ctor ROps o s = Ok (MkBox o s).
@@ -83,11 +81,6 @@ Proof.
   - intros q [<-|Hq]; [exact A|]. exact (proj1 (Forall_forall _ _) B q Hq).
   - destruct C as [C|(q & Hq & E)]; [exists p; split; [left; reflexivity|lra]|exists q; split; [right; exact Hq|exact E]].
 Qed.
-
-(* tightness: every coordinate bound of the box is a bound of all points and is attained by one of them *)
-Definition tight_on (g : vec3 R -> R) (b : box R) (ps : list (vec3 R)) : Prop :=
-  (forall q, In q ps -> g (borigin b) <= g q <= g (box_max b)) /\
-  (exists q, In q ps /\ g q = g (borigin b)) /\ (exists q, In q ps /\ g q = g (box_max b)).
 
 Lemma from_points_tight ps : ps <> [] ->
   exists b, from_points ROps ps = Ok b /\ nonneg_size b /\
